@@ -1612,6 +1612,13 @@ def gen_ctxlife(seed, mode="loop"):
                 sc.main += [("start", s_), ("pause", s_)]
             elif x < 0.7:
                 sc.main += [("start", s_), ("stop", s_)]
+        if r.random() < (0.6 if len(mods) <= 2 else 0.1):
+            # stop callbacks (run by the teardown of the context, or by a plain stop) register another module each
+            parents = [m for m in mods if sc.mods[m][2] & 4]
+            for k_, par in enumerate(parents[:3]):
+                child = fresh("child%d_%d" % (cy, k_))
+                sc.cb(par, "stop", "*", [("reg", child), ("ctx_len",)])
+                zombies.append(child)
         if r.random() < 0.2:
             sc.main.append(("ctx_finalize",))
             s_ = fresh("late%d" % cy)
